@@ -465,3 +465,58 @@ Definition check_retry (pinned : quirks) (c : retry_case) : result :=
 Definition explain_retry (pinned : quirks) (c : retry_case) :=
   retry_model pinned (policy_of_string (y_policy c)) (y_key c) (y_failing c) (y_at c) (map srv (y_newlist c))
               (map srv (y_oldlist c)) 0 0 (y_max c) (503, "internalError"%string).
+
+(** ** group chain: one request object through several balancers.
+    [h_stages] = (policy, hash header, number of servers) per stage; [h_reqs] = per request the
+    values of X-User and X-Key and, per stage, the oracle key of that stage and the observed index. *)
+Record chain_case := { h_valid : bool; h_stages : list (string * string * Z);
+                       h_reqs : list (string * string * list (string * Z)) }.
+
+Definition chain_hdr (a b hkey : string) : string :=
+  if ci_eqb hkey "X-User" then a else if ci_eqb hkey "X-Key" then b else ""%string.
+
+(** the observations of stage s over all requests, in order: one segment of that stage's balancer *)
+Definition column (s : nat) (reqs : list (string * string * list (string * Z))) : list (string * Z) :=
+  map (fun r => nth s (snd r) (""%string, -4)) reqs.
+
+Definition stage_ws (n : Z) : list Z := repeat 0 (Z.to_nat n).
+
+Definition prop_chain (stages : list (string * string * Z)) (reqs : list (string * string * list (string * Z))) : bool :=
+  forallb (fun '(s, (pol, hk, n)) => prop_sel (policy_of_string pol) (stage_ws n) 0 (column s reqs))
+          (combine (seq 0 (List.length stages)) stages) &&
+  forallb (fun r => Nat.eqb (List.length (snd r)) (List.length stages)) reqs.
+
+(** model: stage s of request number j (ticket j) *)
+Definition model_chain (q : quirks) (stages : list (string * string * Z))
+           (reqs : list (string * string * list (string * Z))) : list (list Z) :=
+  map (fun '(j, r) =>
+         map (fun '((pol, hk, n), (key, _)) =>
+                out_code (choose q (policy_of_string pol) (mk_servers (stage_ws n)) {| tk := j; dr := 0; ky := key |}))
+             (combine stages (snd r)))
+      (combine (zseq 0 (List.length reqs)) reqs).
+
+Definition keys_ok_chain (stages : list (string * string * Z)) (reqs : list (string * string * list (string * Z))) : bool :=
+  forallb (fun r =>
+             forallb (fun '((pol, hk, n), (key, _)) =>
+                        match policy_of_string pol with
+                        | HeaderHash => String.eqb key (chain_hdr (fst (fst r)) (snd (fst r)) hk)
+                        | IPHash => true
+                        | _ => String.eqb key ""
+                        end)
+                     (combine stages (snd r)))
+          reqs.
+
+Definition is_hash (pol : string) : bool :=
+  match policy_of_string pol with IPHash | HeaderHash => true | _ => false end.
+
+Definition check_chain (pinned : quirks) (c : chain_case) : result :=
+  if negb (h_valid c) then (false, true, 0%N, 0%N) else
+  let m := model_chain pinned (h_stages c) (h_reqs c) in
+  let obs := map (fun r => map snd (snd r)) (h_reqs c) in
+  let corr := list_eqb (list_eqb Z.eqb) m obs && keys_ok_chain (h_stages c) (h_reqs c) in
+  let prop := prop_chain (h_stages c) (h_reqs c) in
+  let nh := List.length (filter (fun '(pol, _, _) => is_hash pol) (h_stages c)) in
+  let two := Nat.leb 2 nh in let three := Nat.leb 3 (List.length (h_stages c)) in
+  (corr, prop, match h_reqs c with [] => 0%N | _ => (1 + bN two 1 + bN three 2)%N end, 0%N).
+
+Definition explain_chain (pinned : quirks) (c : chain_case) := model_chain pinned (h_stages c) (h_reqs c).
